@@ -135,8 +135,8 @@ def race_strategy():
         refetch = draw(st.lists(st.tuples(st.just('query'), st.sampled_from(kinds), st.just(a), c).map(list), max_size=1)) + refetch
         reader_ops = pre + obs + draw(rfill) + refetch + [['reread', 0, 0, 0]] + draw(rfill)
         writer_ops = draw(wfill) + [change] + draw(wfill)
-        actors = [{'session': {}, 'ops': reader_ops + ([['reread', 0, 0, 0]] if draw(st.booleans()) else []), 'end': 'commit',
-                   'catch': draw(st.booleans())}, {'session': {}, 'ops': writer_ops, 'end': 'commit'}]
+        actors = [{'session': {}, 'ops': reader_ops + [['reread', 0, 0, 0]], 'end': 'commit',
+                   'catch': draw(st.sampled_from([True, True, True, False]))}, {'session': {}, 'ops': writer_ops, 'end': 'commit'}]
         sch = [0] * (len(pre) + len(obs)) + [1] * (len(writer_ops) + 1) + [0] * (len(reader_ops) + 1)
         if draw(st.integers(0, 3)) == 0:
             actors.append({'session': {}, 'ops': draw(st.lists(wop, min_size=1, max_size=4)), 'end': 'commit'})
